@@ -162,6 +162,13 @@ example : (∃ c', Dfs tangled [] [] 0 .cyclic c') ∧ HasCycleFrom tangled 0 :=
   · cases hy
   · exact hb
 
+/-- The sentence "cyclic exactly when a cycle is reachable" needs the proviso of `load_cyclic_iff`:
+the FIRST fault in depth-first order is reported. Here 0 imports a missing library and then 1,
+which imports 0 back: a cycle is reachable from 0, yet the outcome is `notFound`. -/
+theorem first_fault_wins_over_cycle :
+    ∃ g : Graph, HasCycleFrom g 0 ∧ (load (g.length + 1) g {} 0).1 = .notFound := by
+  refine ⟨[(0, .healthy [9, 1]), (1, .healthy [0])], ⟨0, 1, .refl _, by decide, .step (y := 0) (by decide) (.refl _)⟩, by decide⟩
+
 /-- MAIN THEOREM. Whatever was attempted before on the same loader — any list of loads of any
 names, each with any amount of fuel, successful or failed — the outcome of loading `x` afterwards
 is the outcome of loading `x` on the fresh loader: it is a function of the graph alone. (The
